@@ -289,11 +289,27 @@ def _check_predict(ctx, f):
     r = prog.resolve_call(f, f.module, call)
     ctx.require(r[0] == "internal" and r[1] == [TWINS[0]],
                 f"{f.qual}: calibrate_scores resolves to {r}")
-    loop = cfg.enclosing(call, (ast.For,))
+    loop = cfg.enclosing(call, (ast.For, ast.While))
     ctx.require(loop is not None, f"{f.qual}: calibration is not inside the "
                 "loop over the fold models")
+    if isinstance(loop, ast.While):
+        raise AnalysisError(
+            f"{f.qual}: the per-fold calibration loop is a while loop "
+            f"('{ast.unparse(loop.test)[:40]}'); rule C11b reads for loops "
+            "over the models and needs re-reading")
     it = T.of(loop.iter)
-    ctx.check(it == ("param", "models"), "C11b-per-fold-loop", f,
+    MODELS = ("param", "models")
+    over_models = it == MODELS or (
+        it[0] == "call" and it[1] in ("builtins.zip", "builtins.enumerate")
+        and MODELS in it[2]) or it == (
+            "call", "builtins.range", (("call", "builtins.len", (MODELS,),
+                                        ()),), ())
+    part_of_models = it[0] == "sub" and it[1] == MODELS
+    if not over_models and not part_of_models:
+        raise AnalysisError(
+            f"{f.qual}: the loop around the calibration iterates over "
+            f"{show(it, 80)}, a form rule C11b does not read")
+    ctx.check(over_models, "C11b-per-fold-loop", f,
               "calibration runs once per fold model",
               f"the enclosing loop iterates over {show(it, 80)}",
               node=loop)
